@@ -145,7 +145,8 @@ RULE_TEXT = (
     "headers and query plus map_case, each adding a distinct marker, and filter_ hooks observed through their invocations; bare and named decorator form; no, one or two chained "
     "apply_to/skip_for filters by method (any letter case), path, name - single value or list - or regex; global and schema "
     "dispatchers; interleaved unregister calls; in a third of the cases the history is split in two stages on one loaded schema, "
-    "the second part happening after data was generated once) followed by a simulated engine run; "
+    "the second part happening after data was generated once) followed by a simulated engine run and by cases generated straight from the cached operation objects "
+    "(schema[path][method].as_strategy(), the Python-API route); "
     "every fuzzing/stateful wire request of operation o must carry marker k iff hook k is still registered and its own filter "
     "selects o; non-trivial = >= 2 hooks registered with different filters and >= 5 observed requests; distinct = distinct "
     "(history digest, wire digest)"
@@ -154,7 +155,7 @@ ASSUMPTIONS = [
     "secondary property: no schedule/fault dimension; histories and configurations are sampled",
     "test-scope dispatchers (pytest) and auth-provider filters (covered by C14/R4) are not exercised here",
 ]
-EXPECTED_PROBES = ["hooks_registered", "unregistered", "filtered_hooks", "named_form", "schema_scope", "map_case_hooks", "two_stage_histories"]
+EXPECTED_PROBES = ["hooks_registered", "unregistered", "filtered_hooks", "named_form", "schema_scope", "map_case_hooks", "two_stage_histories", "direct_cases"]
 
 
 def fired_faults(desc: dict, res: dict) -> dict:
@@ -168,6 +169,7 @@ def fired_faults(desc: dict, res: dict) -> dict:
         "schema_scope": sum(1 for x in regs if x["scope"] == "schema"),
         "map_case_hooks": sum(1 for x in regs if x["hook"] == "map_case"),
         **({"two_stage_histories": 1} if (res.get("stats") or {}).get("staged") else {}),
+        **({"direct_cases": (res.get("stats") or {}).get("direct_cases")} if (res.get("stats") or {}).get("direct_cases") else {}),
     }
 
 
@@ -198,11 +200,39 @@ class C19Profile(Profile):
         stage_box = [0]
         split = cfg.get("split")
 
+        direct: list = []
+        ctx.extra["c19_direct"] = direct
+
         def run_stage(schema) -> None:
             config = W.build_engine_config(cfg)
             stream = from_schema(schema, config=config).execute()
             for ev in W.EventTap(ctx, stream):
                 pass
+            # the Python-API route: data generated straight from the (cached) operation objects, as `schema[path][method]
+            # .as_strategy()` users and the pytest integration do; same registrations, observed on the generated cases
+            import hypothesis
+            from hypothesis import strategies as st
+
+            for key, refop in ctx.universe.ops.items():
+                try:
+                    operation = schema[refop.path][refop.method.lower()]
+                except Exception:  # noqa: BLE001 - filtered out / not addressable: nothing to observe
+                    continue
+                got: list = []
+
+                @hypothesis.seed(cfg["seed"])
+                @hypothesis.settings(max_examples=2, deadline=None, database=None, phases=[hypothesis.Phase.generate],
+                                     suppress_health_check=list(hypothesis.HealthCheck), derandomize=False)
+                @hypothesis.given(case=operation.as_strategy())
+                def draw(case) -> None:
+                    got.append(({str(k): str(v) for k, v in (case.headers or {}).items()}, {str(k): str(v) for k, v in (case.query or {}).items()}))
+
+                try:
+                    draw()
+                except Exception:  # noqa: BLE001 - unsatisfiable etc.: nothing observed for this operation
+                    pass
+                for headers, query in got:
+                    direct.append((stage_box[0], key, headers, query))
 
         try:
             schema = W.load_schema(ctx)
@@ -338,7 +368,42 @@ class C19Profile(Profile):
                     form=reg["form"],
                     **({"after_first_generation": True} if stage == 1 else {}),
                 )
-        ctx.extra["c19_stats"] = {"observed": observed, "staged": int(split is not None and mark is not None)}
+        # the same rule on the cases generated straight from the operation objects
+        n_direct = 0
+        for stage, _records, hist in stages:
+          regs = {x["k"]: x for x in hist if x["act"] == "register"}
+          gone = {x["k"] for x in hist if x["act"] == "unregister"}
+          order = [x["k"] for x in hist if x["act"] == "register"]
+          for st_, key, headers, query in ctx.extra.get("c19_direct") or []:
+            if st_ != stage or key not in u.ops:
+                continue
+            op = u.ops[key]
+            n_direct += 1
+            for k, reg in regs.items():
+                if reg["hook"] in FILTER_HOOKS:
+                    continue
+                if reg["hook"] in QUERY_HOOKS:
+                    has = f"hk{k}" in query
+                else:
+                    has = any(h.lower() == f"x-hook-{k}" for h in headers)
+                want = k not in gone and selects(reg["filters"], op)
+                if has == want:
+                    continue
+                same_disp = [j for j in order if regs[j]["scope"] == reg["scope"]]
+                what = "applied_after_unregister" if k in gone else "applied_outside_own_filter" if has else "not_applied_where_own_filter_selects"
+                v(
+                    "R1",
+                    f"hook #{k} ({reg['hook']}, {reg['form']} form, {reg['scope']} scope, filters {reg['filters']}) is "
+                    f"{'present' if has else 'absent'} on a case generated from schema[{op.path!r}][{op.method.lower()!r}].as_strategy() "
+                    f"(stage {stage + 1}); its own registration says {'apply' if want else 'do not apply'}",
+                    what=what,
+                    hook=reg["hook"] if reg["hook"] == "map_case" else "map_container",
+                    alone_on_dispatcher=len(same_disp) == 1,
+                    own_filter=bool(reg["filters"]),
+                    form=reg["form"],
+                    **({"after_first_generation": True} if stage == 1 else {}),
+                )
+        ctx.extra["c19_stats"] = {"observed": observed, "staged": int(split is not None and mark is not None), "direct_cases": n_direct}
         return vs
 
     def stats(self, ctx) -> dict:
